@@ -403,6 +403,55 @@ def opDP (args obs : List String) : P String := do
       pure (functional [showSigned sg, toString w, toString f, cxTok] obs)
   | _ => throw "DP: arity"
 
+def showStrs (l : List (List Char)) : String := showList String.ofList l
+
+/-- `SB <fmt> <dot> <prefix=none|0b> [codes] | [strings]` — `bin(frac_dot, prefix)` -/
+def opSB (args obs : List String) : P String := do
+  match args with
+  | [s, n, f, dot, pre, _shape, cs] =>
+    let fmt ← pFmt s n f
+    let dot ← pBool dot
+    let cs ← pList pInt cs
+    let pre := if pre == "0b" then ['0', 'b'] else []
+    pure (functional [showStrs (cs.map (fun c => binStr fmt c dot pre))] obs)
+  | _ => throw "SB: arity"
+
+/-- `SH <fmt> [codes] | [strings]` — `hex()` with the default `0x` prefix -/
+def opSH (args obs : List String) : P String := do
+  match args with
+  | [s, n, f, _shape, cs] =>
+    let fmt ← pFmt s n f
+    let cs ← pList pInt cs
+    pure (functional [showStrs (cs.map (fun c => hexStr fmt c ['0', 'x']))] obs)
+  | _ => throw "SH: arity"
+
+/-- `SR <fmt> <base> [codes] | [strings]` — `base_repr(base)` -/
+def opSR (args obs : List String) : P String := do
+  match args with
+  | [_s, _n, _f, b, _shape, cs] =>
+    let b ← pNat b
+    let cs ← pList pInt cs
+    pure (functional [showStrs (cs.map (baseRepr b))] obs)
+  | _ => throw "SR: arity"
+
+/-- `SP <kind=bin|bindot|hex> <mode> <route> <shape> <fmt> [codes] | [codes']` — render on the implementation,
+feed the strings back into an object of the same format, observe the codes. Spec: the same codes come back.
+The model's own render→parse round trip is evaluated as well (it must agree). -/
+def opSP (args obs : List String) : P String := do
+  match args with
+  | [kind, _mode, _route, _shape, s, n, f, cs] =>
+    let fmt ← pFmt s n f
+    let cs ← pList pInt cs
+    let back := cs.map (fun c =>
+      match kind with
+      | "hex" => parseHexCode fmt.signed fmt.nword (hexStr fmt c ['0', 'x'])
+      | "bindot" => parseBinCode fmt.signed fmt.nword (binStr fmt c true ['0', 'b'])
+      | _ => parseBinCode fmt.signed fmt.nword (binStr fmt c false ['0', 'b']))
+    let model := showList (fun o => match o with | some (v : Int) => toString v | none => "ERR") back
+    let want := showList toString cs
+    pure (reply (decide ([model] = obs)) (decide ([want] = obs)) [model])
+  | _ => throw "SP: arity"
+
 /-- `UN <op=neg|pos|abs> <fx> [codes] | s n f [codes]` — unary operators build a default-config object. -/
 def opUN (args obs : List String) : P String := do
   match args with
@@ -436,6 +485,10 @@ def dispatch (op : String) (args obs : List String) : P String :=
   | "CMP" => opCMP args obs
   | "NC" => opNC args obs
   | "DR" => opDR args obs
+  | "SB" => opSB args obs
+  | "SH" => opSH args obs
+  | "SR" => opSR args obs
+  | "SP" => opSP args obs
   | "DP" => opDP args obs
   | "CH" => opCH args obs
   | _ => throw s!"unknown op {op}"
